@@ -41,12 +41,25 @@ Definition checkS (c : case_t) : bool :=
   list_eqb res3_eqb (map (fun o => (fst (fst o), snd (fst o))) (c_obs c)) (c_fresh c)
   && named_ok (c_hist c) (c_dat c) (c_named c).
 
-(* region 1: the history is not neutral (complement of the hypothesis of C15_history_independent_partial).
-   region 2 (input-determined: both sides are measured in fresh interpreters, not in the history under test):
-   some probed file is presented differently by a fresh auto-detected open and by the explicitly named open. *)
+(* region 1 (input-determined: both sides are measured in fresh interpreters, not in the history under test):
+   some probed file is SELECTED by a class whose presentation differs from the explicitly named open (several registered
+   classes claim the file and registry order decides: complement of the hypothesis of C15_auto_equals_named_partial on the
+   measured files).  A file whose fresh auto-detection RAISES while the named open works is not a known region (that was the
+   uamiv.isMine defect, repaired).  History dependence has no known-defect region: C15_history_independent is full strength. *)
+Definition is_selected (r : result) : bool := match r with Selected _ => true | _ => false end.
+
+Fixpoint named_mismatch (want_selected : bool) (h : list step) (fdat : list nat) (named : list (option nat))
+  (fresh : list (result * nat)) : bool :=
+  match h, fdat, named, fresh with
+  | Auto _ _ :: h', d :: fdat', Some dn :: named', fr :: fresh' =>
+      (negb (Nat.eqb d dn) && Bool.eqb (is_selected (fst fr)) want_selected)
+      || named_mismatch want_selected h' fdat' named' fresh'
+  | _ :: h', _ :: fdat', _ :: named', _ :: fresh' => named_mismatch want_selected h' fdat' named' fresh'
+  | _, _, _, _ => false
+  end.
+
 Definition region (c : case_t) : nat :=
-  let acc := acc_of (c_acc c) in
-  if negb (neutral acc (c_reg0 c) (c_hist c)) then 1
-  else if negb (named_ok (c_hist c) (c_fdat c) (c_named c)) then 2 else 0.
+  if named_mismatch false (c_hist c) (c_fdat c) (c_named c) (c_fresh c) then 0
+  else if named_mismatch true (c_hist c) (c_fdat c) (c_named c) (c_fresh c) then 1 else 0.
 
 Definition check (c : case_t) : verdict := (checkF c, checkS c, region c).
